@@ -208,9 +208,7 @@ class SimplicialComplex:
         k = len(bs) - 1    # order of the final simplex
 
         # fill in defaults
-        if id is None:
-            id = self._rep.newSimplex(k)
-        else:
+        if id is not None:
             # check we've got a new id before we create any faces
             if self._rep.containsSimplex(id) or (k > 0 and id in bs):
                 raise KeyError(f'Duplicate simplex {id}')
@@ -228,6 +226,10 @@ class SimplicialComplex:
 
         # make sure the list is a basis, creating any missing 0-simplices
         self.ensureBasis(bs, attr)
+
+        # synthesise a name that's unused now all the basis is in place
+        if id is None:
+            id = self._rep.newSimplex(k)
 
         # recursively add the simplex and any of its missing faces
         s = self._addSimplexWithBasis(id, attr, k, bs)
